@@ -30,6 +30,13 @@ BUILD = os.path.join(VERIF, "build")
 # or /verif/replay.  The registered commands never set them.
 OUT = os.environ.get("VERIF_OUT", VERIF)
 COQ = os.path.join(VERIF, "coq")
+if OUT != VERIF:
+    # scratch run: work on a private copy of the Coq tree so that a translator
+    # output that differs (seeded change to a translated constant) never touches
+    # the shared coq/Gen, and concurrent runs do not disturb each other
+    COQ = os.path.join(OUT, "coq")
+    os.makedirs(OUT, exist_ok=True)
+    subprocess.run(["rsync", "-a", "--delete", os.path.join(VERIF, "coq") + "/", COQ + "/"], check=False)
 GO = "go1.26"
 
 GOENV = {
@@ -396,6 +403,23 @@ class Check:
                             )
                         else:
                             discharged += 1
+        if ok and self.tier == "thorough" and os.environ.get("VERIF_NO_COQCHK") != "1":
+            # independent re-check of the compiled property file and everything it depends on
+            args = ["coqchk", "-silent", "-o"]
+            for p in order:
+                args += ["-Q", os.path.join(COQ, p), "GoPdf." + p]
+            args.append("GoPdf.%s.%s" % (prop_project, prop_file[:-2]))
+            rc, out = sh(args, cwd=COQ, timeout=3000)
+            self.log.write(out)
+            m = re.search(r"\* Axioms:(.*?)\n\s*\n\* Constants", out, re.S)
+            chk_axioms = [a.strip() for a in (m.group(1) if m else "").split("\n") if a.strip() and a.strip() != "<none>"]
+            self.cov["coqchk"] = {"rc": rc, "axioms": chk_axioms or "<none>",
+                                  "type_in_type": "<none>" if "type-in-type: <none>" in out else "see log",
+                                  "unsafe_fixpoints": "<none>" if "unsafe (co)fixpoints: <none>" in out else "see log",
+                                  "assumed_positivity": "<none>" if "positivity is assumed: <none>" in out else "see log"}
+            if rc != 0 or "type-in-type: <none>" not in out or "unsafe (co)fixpoints: <none>" not in out or "positivity is assumed: <none>" not in out:
+                self.tie_broken("coqchk rejects %s or reports disabled kernel checks" % prop_file, out[-3000:])
+                discharged = 0
         self.cov["discharged"] = discharged
         self.cov["theorems"] = theorems
         self.cov["axioms_per_theorem"] = {
@@ -414,7 +438,7 @@ class Check:
             return self._model(project, driver_dir or project.lower())
 
     def _model(self, project, driver_dir):
-        d = os.path.join(BUILD, "ocaml", project)
+        d = os.path.join(BUILD if OUT == VERIF else OUT, "ocaml", project)
         exe = os.path.join(d, "driver.exe")
         ex = os.path.join(COQ, project, "Extract.v")
         srcs = [ex, os.path.join(VERIF, "ocaml", "wire.ml")]
